@@ -494,6 +494,25 @@ pub fn gen_publish(w: &mut World, qos: u8) -> PubSpec {
         None
     };
     let payload_fails = w.tape.chance(1, 40);
+    let mut payload = payload;
+    if w.cfg.profile == Profile::Limits && !w.conns.is_empty() {
+        // C14: aim the packet size at the broker's Maximum Packet Size, two bytes either side
+        if let (Some(m), true) = (w.conns[w.cur].max_packet_size, w.tape.chance(1, 3)) {
+            let mut wire_props = props.clone();
+            if let Some(c) = &correlate {
+                wire_props.push(Prop { id: 0x09, val: PVal::Bin(c.clone()) });
+            }
+            let empty = Packet::Publish { dup: false, qos, retain, topic: topic.clone(), id: if qos > 0 { Some(1) } else { None }, props: wire_props, payload: vec![] };
+            let base = codec::encode(&empty).len() as i64;
+            let target = m as i64 - 2 + w.tape.choose(5) as i64;
+            let mut n = (target - base).max(0) as usize;
+            if base + n as i64 > 127 + 2 && base <= 129 {
+                n = n.saturating_sub(1); // the remaining-length field grows by one byte
+            }
+            payload = (0..n).map(|i| (tag as usize * 31 + i) as u8).collect();
+            w.probe("publish_size_aimed_at_maximum_packet_size");
+        }
+    }
     let mut spec = PubSpec { tag, topic, payload, qos, retain, props, correlate, payload_fails };
     if w.cfg.guards && qos > 0 {
         // Avoidance guard for the open finding "CONNECT is encoded behind the retained packets":
